@@ -287,6 +287,18 @@ func funcIntList(kv KVPair, args []Expression, ctx *ExecuteCtx) (any, error) {
 	return ret, nil
 }
 
+func funcStrList(kv KVPair, args []Expression, ctx *ExecuteCtx) (any, error) {
+	ret := make([]string, len(args))
+	for i := 0; i < len(args); i++ {
+		val, err := args[i].Execute(kv, ctx)
+		if err != nil {
+			return nil, err
+		}
+		ret[i] = toString(val)
+	}
+	return ret, nil
+}
+
 func funcToList(kv KVPair, args []Expression, ctx *ExecuteCtx) (any, error) {
 	if len(args) == 0 {
 		return []int64{}, nil
@@ -297,23 +309,32 @@ func funcToList(kv KVPair, args []Expression, ctx *ExecuteCtx) (any, error) {
 		return nil, err
 	}
 	useInt := false
+	useStr := false
 	switch fval := first.(type) {
 	case string:
 		if _, err := strconv.ParseInt(fval, 10, 64); err == nil {
 			useInt = true
 		} else if _, err := strconv.ParseFloat(fval, 64); err == nil {
 			useInt = false
+		} else {
+			// A text that is not a number: a list of texts
+			useStr = true
 		}
 	case []byte:
 		if _, err := strconv.ParseInt(string(fval), 10, 64); err == nil {
 			useInt = true
 		} else if _, err := strconv.ParseFloat(string(fval), 64); err == nil {
 			useInt = false
+		} else {
+			useStr = true
 		}
 	case int, uint, int32, uint32, int64, uint64:
 		useInt = true
 	case float32, float64:
 		useInt = false
+	}
+	if useStr {
+		return funcStrList(kv, args, ctx)
 	}
 	if useInt {
 		return funcIntList(kv, args, ctx)
